@@ -549,7 +549,7 @@ func (l *Lowerer) frameObligations(ct *Contract, chain []*Contract) {
 	}
 	sort.Strings(hvs)
 	for _, hv := range hvs {
-		if hv == "$alloc" || strings.HasPrefix(hv, "F.$lock.") || strings.HasPrefix(hv, "F.$chan.sent.") {
+		if hv == "$alloc" || strings.HasPrefix(hv, "F.$lock.") || strings.HasPrefix(hv, "F.$chan.sent.") || hv == "F.$chan.cap" {
 			// (the per-channel send counters are bookkeeping of the engine: a send increments one; they are
 			// constrained by clauses that mention sent(...), not by frames)
 			continue
